@@ -28,7 +28,7 @@ RULE = (
     "silent-miss. Non-trivial: every case with a confirmed found base; distinct (fault, base) pairs are counted."
 )
 ASSUMPTIONS = [
-    "a fault that JASM accepts while still reporting 'found' (e.g. an unknown style, a wrongly typed value it ignores) is counted as 'accepted', not as the failure the property is about",
+    "an unknown or wrongly typed `style` is logged and the default used: for these two fault kinds 'found' is counted as accepted; for every other listed fault both a silent miss and a 'found' without an error are deviations",
     "the unreadable-file cells need capset in a forked child; if that is refused the cell is reported as not exercised",
 ]
 
@@ -64,6 +64,10 @@ BINARY_FAULTS = ["objdump-absent", "objdump-exit1", "objdump-exit3", "objdump-si
 ASSEMBLY_ONLY = set(SPECIAL_BASE_FAULTS) | {"cfg-valid-addr-range-unquoted-bounds", "cfg-valid-addr-range-falsy"}
 FAULTS = {"assembly": RULE_FAULTS + INPUT_FAULTS, "binary": [f for f in RULE_FAULTS if f not in ASSEMBLY_ONLY] + INPUT_FAULTS + BINARY_FAULTS}
 FLOORS = {}
+# Faults the tree is known to swallow and that are NOT among the statement's examples of wrongly typed entries that matter: an unknown
+# or wrongly typed `style` is logged and the default (att) used.  For these 'found' is counted as accepted; for every other fault a
+# 'found' without an error is a deviation.
+LENIENT = {"cfg-style-int", "cfg-style-unknown"}
 
 
 def budget(tier):
@@ -168,7 +172,9 @@ def inject_rule_fault(fault, doc, pos, garbage):
         doc["pattern"] = 5
     elif fault == "pattern-mapping":
         it = pat[0]
-        doc["pattern"] = {it: None} if isinstance(it, (str, int)) else dict(it)
+        if not isinstance(it, (str, int)):
+            return None, None, None  # a mapping of items with bodies is an accepted spelling of the pattern, not a fault
+        doc["pattern"] = {it: None}
     elif fault == "config-null":
         doc["config"] = None
     elif fault == "config-scalar":
@@ -490,6 +496,10 @@ def evaluate(case):
         ev.inconclusive += 1
     elif cls == "silent-miss":
         ev.dev("silent-miss", fault=fault, mode=mode, entry=entry, outcomes=[list(map(str, o))[:3] for o in outcomes], rule=(open(rule_path).read()[:400] if os.path.isfile(rule_path) else None))
+    elif cls == "found" and fault not in LENIENT:
+        # "the operation terminates with an error": a listed fault that is swallowed - the verdict of the intact pair reported as if
+        # nothing were wrong - is not the silent miss the second sentence is about, but it is not an error either
+        ev.dev("fault-accepted-without-error", fault=fault, mode=mode, entry=entry, outcomes=[list(map(str, o))[:3] for o in outcomes], rule=(open(rule_path).read()[:400] if os.path.isfile(rule_path) else None))
     ev.nontrivial = True
     ev.keys = [(fault, mode, entry, str(case["base"])[:2000])]
     ev.sample = {"fault": fault, "mode": mode, "entry": entry, "outcome": cls, "pattern": pattern}
